@@ -1,2 +1,3 @@
 import Driver.Dap4
+import Driver.Dmr
 import Driver.Slice
